@@ -183,11 +183,16 @@ def _tl_case(draw):
         # twins that differ only by -1 versus -2 in one place (these two floats have the same hash in CPython): the looser one in
         # the context, the tighter one in the list
         src = draw(st.sampled_from(base))
-        if draw(st.booleans()):
+        how = draw(st.integers(0, 2))
+        if how == 0:
             v = draw(st.sampled_from(sorted(src[0])))
             loose, tight = [dict(src[0], **{v: -1.0}), src[1]], [dict(src[0], **{v: -2.0}), src[1]]
-        else:
+        elif how == 1:
             loose, tight = [dict(src[0]), -1.0], [dict(src[0]), -2.0]
+        else:
+            # ... or by a relative 9e-6 in one coefficient (equal under a tolerance-based comparison, not implied by each other)
+            v = draw(st.sampled_from(sorted(src[0])))
+            loose, tight = [dict(src[0]), src[1]], [dict(src[0], **{v: src[0][v] * (1 + draw(st.sampled_from([9e-6, -9e-6])))}), src[1]]
         if draw(st.integers(0, 3)) == 0:
             loose, tight = tight, loose
         case["ctx"] = (case["ctx"] or []) + [loose]
